@@ -247,6 +247,8 @@ def _generic(x):
     import numpy as _np
     if isinstance(x, _np.generic):
         return x.item()
+    if type(x).__module__ == 'kvc.arr' and hasattr(x, 'snap') and x.shape == ():
+        return _generic(x.get())          # 0-d array of the numpy model: its value
     return x
 
 
